@@ -450,6 +450,11 @@ PROPS['C12']['contracts'] = PROPS['C12']['contracts'] + [c for c in CONTAINERS i
 PROPS['C10']['contracts'] = PROPS['C10']['contracts'] + [c for c in CONTAINERS if '.isValue' in c[1]]
 PROPS['C14']['contracts'] = PROPS['C14']['contracts'] + [c for c in CONTAINERS if ('setComponentByPosition[' in c[1] and 'value-object' in c[1]) or 'isInconsistent' in c[1]]
 PROPS['C10']['contracts'] = PROPS['C10']['contracts'] + [c for c in CONTAINERS if 'isInconsistent' in c[1]]
+# a slot that holds the default value of its DEFAULT component is not a present member (40741b3): the record's constraints
+# decide the same before and after the reads an encoder makes -- C12 (same outcome after any history), C01/C02 (re-encodable)
+for _p in ('C14', 'C10', 'C12', 'C01', 'C02'):
+    PROPS[_p]['contracts'] = PROPS[_p]['contracts'] + [c for c in CONTAINERS if '_holdsDefault' in c[1] or (
+        _p in ('C12', 'C01', 'C02') and c[1] == 'type.univ::SequenceAndSetBase.isInconsistent')]
 PROPS['C19']['level_text'] += (' SEQUENCE OF / SET OF against an abstract view: the sparse dict is modelled with symbolic integer keys '
                                'and __len__, clear, reset, setComponentByPosition (frame: every other position keeps its member; a '
                                'refused assignment changes nothing), getComponentByPosition (reading an existing member changes '
